@@ -1,5 +1,7 @@
 //! d_boot: transplanted ant-bootstrap/src/cache_store.rs (+ items of lib.rs, config.rs) under symrt.
 #![allow(dead_code, unused_imports, unused_variables, unused_mut, clippy::all)]
+// path-qualified uses (`tracing::warn!(..)`) in transplanted code resolve to no-op macros
+extern crate noop_tracing as tracing;
 macro_rules! trace { ($($t:tt)*) => { if false { let _ = format!($($t)*); } } }
 macro_rules! debug { ($($t:tt)*) => { if false { let _ = format!($($t)*); } } }
 macro_rules! info { ($($t:tt)*) => { if false { let _ = format!($($t)*); } } }
